@@ -105,9 +105,11 @@ func (k msgServer) ProcessUndPurchaseOrder(goCtx context.Context, msg *types.Msg
 		return nil, sdkerrors.Wrapf(types.ErrPurchaseOrderAlreadyProcessed, "id %d already processed: %s", msg.PurchaseOrderId, purchaseOrder.Status.String())
 	}
 
+	// decisions are stored under the canonical bech32 form of the signer: compare that form, not the
+	// spelling used in the message (bech32 is also valid in upper case)
 	currentDecisions := purchaseOrder.Decisions
 	for _, d := range currentDecisions {
-		if msg.Signer == d.Signer {
+		if signer.String() == d.Signer {
 			return nil, sdkerrors.Wrapf(types.ErrSignerAlreadyMadeDecision, "signer %s already decided: %s", msg.Signer, d.Decision.String())
 		}
 	}
